@@ -356,6 +356,27 @@ Theorem C09_failed_call_nonvacuous :
 Proof. exact failed_call_nonvacuous. Qed.
 Print Assumptions C09_failed_call_nonvacuous.
 
+(* round 6: Loop.add_measurements is an operation of the history alphabet (OAddMeas): C09_step / C09_history / C09_property
+   quantify over it like over every other edit, and - like the setters and queries - a step with it needs no run_ok
+   hypothesis (basic_op now includes OAddMeas, see C09_history_basic_total): it cannot end in the model artefacts ExFuel /
+   ExDangling on a state with Inv *)
+Theorem C09_step_add_measurements : forall s p ms s' out,
+  sInv s -> step s (OAddMeas p ms) = (s', out) -> out_ok out /\ sInv s'.
+Proof. exact step_add_measurements. Qed.
+Print Assumptions C09_step_add_measurements.
+
+(* non-vacuity: a 9-operation history over queries, setters and add_measurements on the 3-level tree nv_init: windows added to
+   an inner node with body duration 10 (then 11) are shifted by it, to a leaf (shifted by its waveform's duration 16, as the code does), to
+   the root; one call addresses no node (BadPath).  The resulting measurement lists are stated. *)
+Theorem C09_add_measurements_nonvacuous :
+  forallb basic_op am_ops = true /\ forallb guard_C09_args am_ops = true /\
+  outcomes (init_state nv_init) am_ops = [Done; Done; Done; Done; Done; Done; Done; BadPath; Done] /\
+  meas_at (run (init_state nv_init) am_ops) [1%nat] = Some (Some [(1, 0%Q, 1%Q); (5, 10%Q, 1%Q); (6, 21 # 2, 2%Q); (8, 11%Q, 1%Q)]) /\
+  meas_at (run (init_state nv_init) am_ops) [0%nat] = Some (Some [(7, 16%Q, 1%Q)]) /\
+  meas_at (run (init_state nv_init) am_ops) [] = Some (Some [(9, 104%Q, 1%Q)]).
+Proof. exact add_measurements_nonvacuous. Qed.
+Print Assumptions C09_add_measurements_nonvacuous.
+
 (* the model's own observation passes the check that is applied to the implementation's observation *)
 Definition obs_ok (s : state) : bool :=
   match observe s with Some t => spec_tree t [] true 0 [] | None => false end.
